@@ -71,6 +71,12 @@ def main():
             thms = core.theorems_of(f"Props_{pid}.v")
         except Exception:  # noqa: BLE001
             thms = []
+    # 3b. thorough tier: independent checker
+    chk = None
+    if tier == "thorough" and ok_props:
+        ok_chk, chk, chk_log = core.coqchk(pid)
+        if not ok_chk:
+            broken.append({"obligation": f"coqchk on Props_{pid}", "detail": {"summary": chk, "log": chk_log}})
     # 4. lint
     bad = core.lint()
     if bad:
@@ -155,6 +161,7 @@ def main():
         "distribution": res.get("distribution", {}),
         "exhaustive": res.get("exhaustive", False),
         "broken_obligations": [b["obligation"] for b in broken],
+        "coqchk": chk,
     }
     if discharged == 0:
         # nothing discharged on this run (broken build): the proof keys would be invalid, keep the generic counts
